@@ -759,6 +759,16 @@ func (e *Env) call(x *ECall) TV {
 		v := arg(0)
 		gt := e.exprType(x.Args[1])
 		return TV{T: fmt.Sprintf("(= (dynType %s) %d)", v.T, c.typeTag(typeKey(gt))), Ty: B}
+	case "implements": // implements(iface, I): the dynamic type implements interface I
+		v := arg(0)
+		gt := e.exprType(x.Args[1])
+		fn := fmt.Sprintf("impl_t%d", c.typeTag("iface:"+typeKey(gt)))
+		if !c.declared[fn] {
+			c.declared[fn] = true
+			c.emit("(declare-fun " + fn + " (Int) Bool)")
+			c.emit("(assert (not (" + fn + " 0)))")
+		}
+		return TV{T: "(" + fn + " (dynType " + v.T + "))", Ty: B}
 	case "as": // as(iface, T): the dynamic value, meaningful when typeIs(iface, T)
 		v := arg(0)
 		gt := e.exprType(x.Args[1])
